@@ -7,6 +7,8 @@ FramesWide  == { <<{1}>>, <<{2}>>, <<{1,2}>>, <<{2,3}>>, <<{1,2,3}>>, <<{1,2},{1
 (* part numbers are rendered as decimal text in file names: a frame long enough to cross 9 -> 10 *)
 Long11      == [c \in 1..11 |-> {1}]
 FramesLong  == { <<{1}>>, <<{1,2}>>, Long11 }
+(* an empty chunk (two equal row-group offsets) consumes a part number but writes no file: a gap in the ids *)
+FramesGap   == { <<{1}>>, <<{1}, {}, {2}>>, <<{1,2}>> }
 OpsAll == {"append", "overwrite", "remove", "wrg"}
 OpsAppend == {"append"}
 BoolBoth == {TRUE, FALSE}
